@@ -2618,11 +2618,11 @@ class SlicedMemoryIO(object):
         """
         # If n_bytes is negative then calculate it as the number of bytes left
         if n_bytes < 0:
-            n_bytes = self._end_address - self.address
+            n_bytes = self._bytes_remaining
 
         # Determine how far to read, then read nothing beyond that point.
-        if self.address + n_bytes > self._end_address:
-            new_n_bytes = self._end_address - self.address
+        if n_bytes > self._bytes_remaining:
+            new_n_bytes = self._bytes_remaining
             warnings.warn("read truncated from {} to {} bytes".format(
                 n_bytes, new_n_bytes), TruncationWarning, stacklevel=3)
             n_bytes = new_n_bytes
@@ -2659,8 +2659,8 @@ class SlicedMemoryIO(object):
         int
             Number of bytes written.
         """
-        if self.address + len(bytes) > self._end_address:
-            n_bytes = self._end_address - self.address
+        if len(bytes) > self._bytes_remaining:
+            n_bytes = self._bytes_remaining
 
             warnings.warn("write truncated from {} to {} bytes".format(
                 len(bytes), n_bytes), TruncationWarning, stacklevel=3)
@@ -2673,6 +2673,15 @@ class SlicedMemoryIO(object):
         self._parent._perform_write(self.address, bytes)
         self._offset += len(bytes)
         return len(bytes)
+
+    @property
+    def _bytes_remaining(self):
+        """The number of bytes which may be read or written from the current
+        position (zero if the current position is outside the region)."""
+        if 0 <= self._offset <= len(self):
+            return len(self) - self._offset
+        else:
+            return 0
 
     @_if_not_closed
     def flush(self):
